@@ -3,6 +3,7 @@ import Driver.MC4
 import Driver.Disp
 import Driver.Pipe
 import Driver.OpAlg
+import Driver.NumericMain
 
 def main (args : List String) : IO UInt32 := do
   let stdin ← IO.getStdin
@@ -12,4 +13,5 @@ def main (args : List String) : IO UInt32 := do
   | ["disp"] => Driver.Disp.run lines; return 0
   | ["pipe"] => Driver.Pipe.run lines; return 0
   | ["opalg"] => Driver.OpAlg.main lines; return 0
+  | ["numeric"] => Driver.Numeric.runNumeric lines.toList; return 0
   | _ => IO.eprintln "usage: pmdriver <mode>  (case file on stdin)"; return 2
